@@ -132,7 +132,11 @@ class Check:
                     # in-path obligations (safe, pre@callsite, frame.index-space)
                     for nm, hy, goal, meta in cx.obligations:
                         self.obls.append(Obl(f"{tag}.{nm}@p{k}", hy, goal, kind=meta.get("kind", "safe"), meta=meta, contract=c, cfg=cfg, clause=f"{tag}.{nm}"))
-                    self.obls.append(Obl(f"{tag}.cover@p{k}", facts + list(c.cover_hint(cfg, inputs)), z3.BoolVal(False), kind="cover", expect="sat", contract=c, cfg=cfg, clause=f"{tag}.cover", tactics=()))
+                    auto_hint = []
+                    for key in getattr(cx, "_seen", ()):
+                        if isinstance(key, tuple) and key[0] == "atom" and "!" not in key[1] and not key[1].startswith("const_"):
+                            auto_hint += [z3.Real(f"cos!{key[1]}") == 1, z3.Real(f"sin!{key[1]}") == 0, z3.Real(key[1]) == 0]
+                    self.obls.append(Obl(f"{tag}.cover@p{k}", facts + auto_hint + list(c.cover_hint(cfg, inputs)), z3.BoolVal(False), kind="cover", expect="sat", contract=c, cfg=cfg, clause=f"{tag}.cover", tactics=()))
                     if out[0] == "return":
                         try:
                             clauses = c.post(cx, cfg, inputs, out[1])
